@@ -4,7 +4,7 @@ package otp
 
 //verif:harness prop=C06 name=iff
 //verif:cases quick flags=2,3,6,10,31 src=0,1,2,3 hash=0 digits=6,10 bad=0
-//verif:cases thorough flags=0..31 src=0,1,2,3 hash=0,2 digits=4,10 bad=0
+//verif:cases thorough flags=0..31 src=0,3 hash=0 digits=4,10 bad=0
 //verif:replace github.com/ja7ad/otp.DecodeSecret=verifStub_DecodeSecret
 //verif:opt hmac=fresh unwind=1000 maxpaths=3000
 func verifH_C06_iff() {
